@@ -36,6 +36,7 @@ def run(prog, rep, tier, repo):
         y = ('arg', 3, f.names.get(3))
         rets = f.return_values()
         problems = []
+        undec = []
         val = None
         if len(rets) == 1 and tag(rets[0]) == 'call' and rets[0][1] == P + '::update' and rets[0][2][0] == me:
             val = rets[0][2][1]
@@ -66,13 +67,16 @@ def run(prog, rep, tier, repo):
                 if not vd or any(z[2] != (x, ncoef) for z in vd):
                     problems.append('the design matrix is not vandermonde(x, coef.len())')
             except MatProblem as ex:
-                problems.append(str(ex))
+                (problems if ex.definite else undec).append(str(ex))
         # length assert
         conds = [('bin', 'Eq', ('len', x), ('len', y), 'usize'), ('bin', 'Eq', ('len', y), ('len', x), 'usize')]
         mm = [c for c in f.calls() if c.path and c.path.endswith('utils::matmul')]
         if not mm or not all(any(cn in conds and v is True for cn, v in f.guards().get(c.bb, [])) for c in mm):
             problems.append('assert_eq!(x.len(), y.len()) does not dominate the products')
-        (rep.viol if problems else rep.ok)('normal-equations', key, '; '.join(problems) if problems else 'coef = inv(V^T V).(V^T y), V = vandermonde(x, coef.len()); lengths asserted equal', site_of(f.body))
+        if undec and not problems:
+            rep.undecided('normal-equations', key, '; '.join(undec), site_of(f.body), proof=False)
+        else:
+            (rep.viol if problems else rep.ok)('normal-equations', key, '; '.join(problems) if problems else 'coef = inv(V^T V).(V^T y), V = vandermonde(x, coef.len()); lengths asserted equal', site_of(f.body))
         if not problems:
             rep.sample('fit: coef = (inv((V\'.V)).(V\'.y))')
     rep.floor('normal-equations', 1, 'fit')
